@@ -72,3 +72,20 @@ CLAIMS.update({
         "Trusts go/ssa/go/types; one order exception (lookup by unique key) is listed in the checker with its reason.",
         T+"unordered-until-sorted typestate/taint analysis on go/ssa, AST constant-table extraction, cross-package reference resolution"),
 })
+
+# ---- additions after the second round of seeded changes (expression extraction, engine E10) ----------------
+def _amend(pid, old, new, tech_add, claim_add=""):
+    lvl, claim, trust, tech = CLAIMS[pid]
+    if old:
+        assert old in claim, (pid, old)
+        claim = claim.replace(old, new)
+    CLAIMS[pid] = (lvl, claim + claim_add, trust, tech + tech_add)
+
+_EX = "; symbolic expression extraction (flow-sensitive value numbering over go/ssa with verified helper summaries) compared with the protocol's formula table"
+_amend("C03", "The byte windows inside generateAESIGE and the cipher are not decided.",
+       "The aes_key / aes_iv expressions computed by generateAESIGE are extracted for both directions and compared with the MTProto 1.0 formulas (every auth_key window, SHA-1 input order and digest slice); the block cipher itself is not decided.", _EX)
+_amend("C18", "That M1 verifies for the right password only is numerical and not decided.",
+       "The expressions computed for A and M1 (through x, v, k, k_v, t, u, s_a, k_a) are extracted and compared operand for operand with the SRP document's formulas; math/big and the hash functions stay uninterpreted symbols, so agreement with a server is decided only up to their correctness.", _EX)
+_amend("C05", "", "", _EX, " The tmp_aes_key / tmp_aes_iv expressions of generateTempKeys are extracted and compared with the key-exchange formulas.")
+_amend("C06", "", "", _EX, " The derived values of the exchange (temp keys, RSA payload and RSA step, both DH powers with one fresh exponent, auth_key, new_nonce_hash1, server_salt) are extracted as expressions and compared with the protocol's formulas; a fingerprint of the client's key anywhere in the server's list is accepted.")
+_amend("C07", "", "", _EX, " The value new_nonce_hash1 is compared with is the protocol's SHA1(new_nonce|0x01|SHA1(auth_key)[0:8])[4:20]; guards extracted into helpers or accumulated in a flag are recognised.")
